@@ -61,7 +61,7 @@ NOTES = X.NOTES + [
     "until they unregister",
     "eliot start_action/DeferredContext no-ops; defer_to_thread inline; twisted.web.http replaced by a plain namespace of its constants; "
     "os.urandom (upload secret) constant; logging sinks of storage/server.py and storage/immutable.py dropped (arguments still evaluated)",
-    "CrossHair's optional short-circuiting of repr() calls (a fork per call) is switched off by removing the contract docstring of its repr stand-in",
+    "CrossHair's optional short-circuiting of repr() calls (a fork per call) is switched off (the same repr stand-in registered without its contract docstring)",
     "direct path: storage_client._StorageServer with a local reference that calls remote_<name> on the real Foolscap adapter objects (no Foolscap wire)",
 ]
 
@@ -69,11 +69,18 @@ NOTES = X.NOTES + [
 # CrossHair's stand-in for the builtin repr() carries a contract docstring ("post[]: True"); every function with a contract is a
 # candidate for short-circuiting (skip the body, return a fresh symbolic str, reconcile at the end of the path), and the choice
 # is a search-tree fork.  The storage code formats "%r" of concrete values in many places (log messages kept in assignments,
-# error texts): each call doubles the number of paths.  Without the docstring repr() is simply executed (the precise behaviour).
+# error texts): each call doubles the number of paths.  Registered here instead: the same stand-in without a contract, so repr() is simply executed (the precise behaviour).
 try:
-    from crosshair.libimpl import builtinslib as _chb
-    _chb._repr.__doc__ = None
-except Exception:                                     # pragma: no cover
+    import crosshair.core_and_libs                    # noqa: F401  (performs CrossHair's own registrations first)
+    from crosshair import core as _chcore
+    from crosshair.libimpl.builtinslib import invoke_dunder as _invoke_dunder
+
+    def _plain_repr(obj):
+        # same body as CrossHair's stand-in, without the contract docstring
+        return _invoke_dunder(obj, "__repr__")
+    if repr in _chcore._PATCH_REGISTRATIONS:
+        _chcore._PATCH_REGISTRATIONS[repr] = _plain_repr
+except ImportError:                                   # pragma: no cover
     pass
 
 # ---- constants / no-op environment ------------------------------------------------------------------------------------
@@ -152,10 +159,9 @@ for _k in dir(_real_server_log):
         setattr(_NoLog, _k, getattr(_real_server_log, _k))
 server_mod.log = _NoLog()
 imm.log = _NoLog()
-# ... and the log statements themselves are cut from the StorageServer entry points: `"...%r" % si_s` calls repr(), and
-# CrossHair forks at every repr() call (short-circuit choice), doubling the paths per statement
-for _name in ("get_buckets", "slot_readv", "slot_testv_and_readv_and_writev", "allocate_buckets", "_evaluate_test_vectors",
-              "_evaluate_write_vectors"):
+# ... and the log statements of the two methods that format the (symbolic) test / write vectors into the message are cut
+# (`self.log("testv failed: [%d]: %r" % (sharenum, testv))`)
+for _name in ("_evaluate_test_vectors", "_evaluate_write_vectors"):
     if _name in vars(X.SS):
         hlib.strip_method(X.SS, _name)
 for _name in ("abort", "_abort_due_to_timeout"):
@@ -227,8 +233,9 @@ import textwrap as _textwrap
 
 
 class _FStringCut(_ast.NodeTransformer):
-    """f"... {value} ..." -> "... {} ..." (the literal text without formatting the values): formatting a symbolic integer
-    realises it value by value.  Only message text changes; exception types and control flow are untouched."""
+    """f"... {value} ..." -> "... {} ..." and raise E("... {} ...".format(v)) -> raise E("... {} ...") (the literal text without
+    formatting the values): formatting a symbolic integer realises it value by value.  Only message text changes; exception
+    types and control flow are untouched."""
 
     def __init__(self):
         self.cut = []
@@ -240,15 +247,38 @@ class _FStringCut(_ast.NodeTransformer):
         self.cut.append(text)
         return _ast.copy_location(_ast.Constant(text), node)
 
+    def visit_Raise(self, node):
+        # raise E("... {} ...".format(a, b)) -> raise E("... {} ...")
+        self.generic_visit(node)
+        outer = self
+
+        class _Fmt(_ast.NodeTransformer):
+            def visit_Call(self, call):
+                self.generic_visit(call)
+                f = call.func
+                if (isinstance(f, _ast.Attribute) and f.attr == "format" and isinstance(f.value, _ast.Constant)
+                        and isinstance(f.value.value, str)):
+                    outer.cut.append(f.value.value)
+                    return _ast.copy_location(f.value, call)
+                return call
+        if node.exc is not None:
+            node.exc = _Fmt().visit(node.exc)
+        return node
+
 
 def cut_fstrings(fn):
     """fn recompiled from its current source with the f-strings un-formatted (decorators kept, module globals shared)"""
     raw = fn
     while hasattr(raw, "__wrapped__"):
         raw = raw.__wrapped__
-    src = _textwrap.dedent(_inspect.getsource(raw))
+    try:
+        src = _textwrap.dedent(_inspect.getsource(raw))
+        tree = _ast.parse(src)
+    except (OSError, TypeError, SyntaxError):
+        return fn
+    if not isinstance(tree.body[0], (_ast.FunctionDef, _ast.AsyncFunctionDef)) or tree.body[0].name != raw.__name__:
+        return fn                                    # already recompiled from a snippet (strip_logs): its file lines are not its source
     filename = _inspect.getsourcefile(raw) or "?"
-    tree = _ast.parse(src)
     cutter = _FStringCut()
     tree = cutter.visit(tree)
     if not cutter.cut:
@@ -265,11 +295,12 @@ def cut_fstrings(fn):
 
 
 hc.read_share_chunk = cut_fstrings(hc.read_share_chunk)
-for _name, _attr in list(vars(hs._ReadRangeProducer).items()):
-    if _inspect.isfunction(_attr) and not _name.startswith("__"):
-        _new = cut_fstrings(_attr)
-        if _new is not _attr:
-            setattr(hs._ReadRangeProducer, _name, _new)
+for _cls in (hs._ReadRangeProducer, imm.BucketWriter):
+    for _name, _attr in list(vars(_cls).items()):
+        if _inspect.isfunction(_attr) and not _name.startswith("__"):
+            _new = cut_fstrings(_attr)
+            if _new is not _attr:
+                setattr(_cls, _name, _new)
 
 # ---- header text stand-ins ------------------------------------------------------------------------------------------
 _TAB = []           # per-run table: placeholder number -> (kind, units, payload)
